@@ -550,6 +550,25 @@ func rulesExpansion(p *Prog, r *Report, eng *Engine) {
 		}
 	}
 
+	// ---- X6: the expansion does not filter. Only for the term-extraction property: dropping an absorbed
+	// alternative (A OR (A AND B)) leaves the verdict of Satisfies unchanged but loses B for ExtractLicenses.
+	if r.Property == "C06" {
+		r.Rule("X6", "necessary", 1, "no filtering of alternatives or terms: in the expansion cluster every loop that accumulates node lists by append appends on every iteration (an append under a branch inside the loop drops alternatives or terms selectively)")
+		for _, f := range cluster {
+			for _, al := range findAppendLoops(f) {
+				if !containsNodes(al.App.Type(), node) {
+					continue
+				}
+				key := fmt.Sprintf("%s|append loop over %s", p.shortKey(f), describe(al.Coll))
+				if al.Unconditional {
+					r.OK("X6", key, p.pos(al.App.Pos()), "appends on every iteration", "", true)
+				} else {
+					r.Bad("X6", key, p.pos(al.App.Pos()), "the loop appends to its list of alternatives/terms only on some iterations: the others are dropped from the expansion")
+				}
+			}
+		}
+	}
+
 	// ---- X3
 	for _, f := range p.RList {
 		for _, b := range f.Blocks {
